@@ -39,6 +39,9 @@ def dispatch (t : Toks) : Verdict :=
   | none =>
   match NutsModel.Drv.C05.dispatch t with
   | some v => v
+  | none =>
+  match NutsModel.Drv.C08.dispatch t with
+  | some v => v
   | none => .bad s!"unknown record kind {t[0]?}"
 
 partial def loop (h : IO.FS.Stream) (st : Stats) : IO Stats := do
